@@ -5,5 +5,5 @@ CONSTANTS
   Menu <- CoreMenu
   InitTrees <- Trees
   Mutant = "none"
-INVARIANTS Refines PrefixFreeAbs NoRace Exclusive
+INVARIANTS Refines PrefixFreeAbs NoRace Exclusive NoPhantom
 PROPERTIES Terminates
